@@ -327,79 +327,67 @@ def _apply_helper_axiom(got: Mono, p, dn: Denoter) -> Mono:
 
 
 def _check_cancellation_helper(model: Model, rep: Report, h) -> None:
-    cons = construct(h, "one-to-one-cancellation")
-    # locate the nested enumerate loops
-    outer = [n for n in h.node.body if isinstance(n, ast.For)]
-    problems = []
-    if len(outer) != 1 or not [n for n in outer[0].body if isinstance(n, ast.For)]:
-        rep.unknown("R13.2", cons, "helper is not a nested pair of loops; cannot apply the one-iteration rule", loc(h))
-        return
-    inner = [n for n in outer[0].body if isinstance(n, ast.For)][0]
+    """Small-scope evaluation of the cancellation helper: for every numerator / denominator of up to three factors over two distinct symbols
+    (225 configurations) the evaluator folds the routine to its literal result -- loops over literal sequences are unrolled, membership in a
+    set of known constants and equality of constants are decided -- and the result must be a one-to-one cancellation: what is removed from the
+    numerator is, as a multiset, exactly what is removed from the denominator, nothing is added, and no common factor is left."""
+    import itertools
+    from collections import Counter
 
-    def enum_target(loop):
-        if isinstance(loop.iter, ast.Call) and getattr(loop.iter.func, "id", "") == "enumerate" and isinstance(loop.target, ast.Tuple) and len(loop.target.elts) == 2:
-            return loop.target.elts[0].id, loop.target.elts[1].id, ast.unparse(loop.iter.args[0])
+    cons = construct(h, "one-to-one-cancellation")
+    a = h.node.args
+    params = [x.arg for x in a.posonlyargs + a.args]
+    if h.cls is not None and not h.is_staticmethod:
+        params = params[1:]
+    if len(params) != 2:
+        rep.unknown("R13.2", cons, "the helper does not take (numerator, denominator)", loc(h))
+        return
+    problems = []
+    undecided = 0
+    n_cfg = 0
+    alphabet = ["a", "b"]
+
+    def literal(t):
+        while t[0] == "call" and t[1] in ("tuple", "list") and len(t[2]) == 1 and not t[3]:
+            t = t[2][0]
+        if t[0] in ("tuplelit", "listlit") and all(x[0] == "const" for x in t[1]):
+            return [x[1] for x in t[1]]
         return None
 
-    eo, ei = enum_target(outer[0]), enum_target(inner)
-    if not eo or not ei:
-        rep.unknown("R13.2", cons, "loops are not `for i, x in enumerate(seq)`", loc(h))
-        return
-    i, xn, seq_n = eo
-    j, xd, seq_d = ei
-    ev = Evaluator(model)
-    # accumulators = names assigned set() before the loop
-    accs = [t.id for st in h.node.body if isinstance(st, ast.Assign) for t in st.targets if isinstance(t, ast.Name)]
-    env = {a: var(a) for a in accs}
-    for nme in (i, xn, j, xd):
-        env[nme] = var(nme)
-    for prm in h.params:
-        env[prm] = var(prm)
-    st = State(env)
-    outs = ev.exec_block(inner.body, st, h)
-    matched = 0
-    for s2, status, val, line in outs:
-        changed = {a: s2.env[a] for a in accs if s2.env[a] != var(a)}
-        if not changed:
-            continue
-        matched += 1
-        conds = set(s2.conds)
-        # which accumulator receives which index
-        recv = {}
-        for a, t in changed.items():
-            if t[0] == "union" and t[1] == var(a) and len(t) == 3 and t[2][0] == "setlit" and len(t[2][1]) == 1:
-                recv[a] = t[2][1][0]
-            else:
-                problems.append(f"accumulator {a} updated in an unexpected way: {short(show(t), 80)}")
-        aj = [a for a, t in recv.items() if t == var(j)]
-        ai = [a for a, t in recv.items() if t == var(i)]
-        if len(aj) != 1 or len(ai) != 1 or len(recv) != 2:
-            problems.append("a match must record exactly the numerator index and the denominator index")
-            continue
-        if ("eq", var(xn), var(xd)) not in conds and ("eq", var(xd), var(xn)) not in conds:
-            problems.append("the cancellation is not guarded by equality of the two elements themselves")
-        if ("not", ("in", var(j), var(aj[0]))) not in conds:
-            problems.append(f"a denominator factor can be cancelled more than once: the match is not guarded by `{j} not in {aj[0]}` (the set that receives {j})")
-        if status != "break":
-            problems.append("after a match the inner loop continues, so one numerator factor can cancel several denominator factors")
-        # the final filters must pair each sequence with its own index set
-        src = ast.unparse(h.node)
-        for comp in [n for n in ast.walk(h.node) if isinstance(n, ast.GeneratorExp)]:
-            g = comp.generators[0]
-            if isinstance(g.iter, ast.Call) and getattr(g.iter.func, "id", "") == "enumerate" and g.ifs:
-                seq = ast.unparse(g.iter.args[0])
-                test = g.ifs[0]
-                if isinstance(test, ast.Compare) and isinstance(test.ops[0], ast.NotIn):
-                    used = ast.unparse(test.comparators[0])
-                    want = ai[0] if seq == seq_n else aj[0] if seq == seq_d else None
-                    if want and used != want:
-                        problems.append(f"result filter over `{seq}` consults `{used}` instead of `{want}`")
-    if matched == 0:
-        problems.append("no path of the loop body records a cancellation")
+    for ln in range(4):
+        for N in itertools.product(alphabet, repeat=ln):
+            for ld in range(4):
+                for D in itertools.product(alphabet, repeat=ld):
+                    n_cfg += 1
+                    ev = Evaluator(model)
+                    args = {params[0]: ("tuplelit", tuple(const(x) for x in N)), params[1]: ("tuplelit", tuple(const(x) for x in D))}
+                    try:
+                        ps = ev.run(h, args, ("ref", h.cls.qname)) if (h.cls is not None and h.is_classmethod) else ev.run(h, args)
+                    except Exception:  # noqa: BLE001
+                        undecided += 1
+                        continue
+                    rets = [p for p in ps if not (p.kind == "raise")]
+                    if len(ps) != 1 or ps[0].kind != "return" or ps[0].conds or ps[0].value[0] != "tuplelit" or len(ps[0].value[1]) != 2:
+                        undecided += 1
+                        continue
+                    n2, d2 = literal(ps[0].value[1][0]), literal(ps[0].value[1][1])
+                    if n2 is None or d2 is None:
+                        undecided += 1
+                        continue
+                    cn, cd, cn2, cd2 = Counter(N), Counter(D), Counter(n2), Counter(d2)
+                    where = f"{list(N)} / {list(D)} -> {n2} / {d2}"
+                    if cn2 - cn or cd2 - cd:
+                        problems.append(f"a factor is added: {where}")
+                    elif (cn - cn2) != (cd - cd2):
+                        problems.append(f"the factors removed above and below the bar differ (the value changes): {where}")
+                    elif cn2 & cd2:
+                        problems.append(f"a common factor is left uncancelled: {where}")
     if problems:
-        rep.refuted("R13.2", cons, "; ".join(sorted(set(problems))), loc(h, inner.lineno))
+        rep.refuted("R13.2", cons, "; ".join(sorted(set(problems))[:3]), loc(h), sample={"configurations": n_cfg, "violating": len(problems)})
+    elif undecided:
+        rep.unknown("R13.2", cons, f"{undecided} of {n_cfg} small-scope configurations do not fold to a literal result (idiom outside the folding rules)", loc(h))
     else:
-        rep.proven("R13.2", cons, loc=loc(h, inner.lineno), sample={"rule": "match path has conds {x_n == x_d, j not in D_cancelled}, adds i and j, then break"})
+        rep.proven("R13.2", cons, loc=loc(h), sample={"configurations": n_cfg, "rule": "removed(numerator) = removed(denominator) as multisets; nothing added; no common factor left"})
 
 
 # ------------------------------------------------------------------------------------------- R13.3
